@@ -158,6 +158,9 @@ var opTimeout = tscale.D(10 * time.Second)
 // curStall: byte offset at which the network of the current run stalls (-1: it does not)
 var curStall int64 = -1
 
+// segment size of the fragmenting proxy of the current run (0: none)
+var curFrag int
+
 // rough: channels that end early are ended while their own side is still sending (Free / handler return concurrent with
 // Send).  What such a Send returns is the caller's race; the run is used for its findings only (panics, crashes, hangs of
 // OTHER channels), its trace is not validated.
@@ -373,6 +376,17 @@ func runOnce(run int, cfg config, rec *recorder, cutAfter int64, found func(sig,
 		addr = proxy.addr()
 		proxy.onCut = func() { rec.log(Event{E: "fail"}) }
 	}
+	if cutAfter < 0 && curStall < 0 && curFrag > 0 {
+		// no fault: the byte stream arrives in segments of a few bytes
+		fp, err := newCutProxy(srv.Addr, 1<<60, true)
+		if err != nil {
+			found("harness", err.Error())
+			return
+		}
+		fp.frag = curFrag
+		defer fp.close()
+		addr = fp.addr()
+	}
 	if cutAfter < 0 && curStall >= 0 {
 		// no fault, but the network stalls once for a while after curStall bytes in one direction
 		sp, err := newCutProxy(srv.Addr, curStall, rng.Intn(2) == 0)
@@ -529,6 +543,7 @@ func main() {
 	cutStep := flag.Int("cutstep", 7, "C09: offsets k = first, first+step, ...")
 	pooltrace := flag.String("pooltrace", "", "C18: record the pool events of the run into this file")
 	lag := flag.Bool("lag", false, "lagging receivers: large windows and messages, the receiving side waits until the peer has sent everything")
+	frag := flag.Bool("frag", false, "the byte stream reaches both sides in segments of 1-7 bytes; compression off in two runs of three")
 	stall := flag.Bool("stall", false, "the network stalls once per run for 250 ms after a byte count chosen per run (no fault)")
 	flag.Parse()
 	if *pooltrace != "" {
@@ -566,6 +581,14 @@ func main() {
 		cfg := randomConfig(rng, true)
 		cutAfter := int64(-1)
 		curStall = -1
+		curFrag = 0
+		if *frag {
+			curFrag = 1 + (r+int(*seed))%7
+			cfg.Compress = r%3 == 0
+			if cfg.Window > 1<<16 {
+				cfg.Window = 1 << 16
+			}
+		}
 		if *stall {
 			// small write queue and window, so that queues fill up during the stall
 			cfg.Conns = 1
